@@ -33,7 +33,7 @@ CLAIMED = {
          "Trees built through the public constructors and builder sequences are compared, row by row and block by block, with the boolean combination the caller wrote (harness AST with reference leaf semantics); every expression and Query is round-tripped through encoding/json (same verdicts, stable bytes).",
          "Builder orders whose meaning is unspecified (chained calls before Match) carry no verdict; strings valid UTF-8.", "6/C25"),
  "C20": ("exploration", "consumer-script monitor over the real cursor with fault/delay plans at instrumented stores and tagged schedule points, under the race detector",
-         "Hundreds of generated Next/cancel/Close/concurrent-Close scripts (incl. cancel, then a pause long enough for the pipeline to wind down, then Next) (plain cancellable contexts and contexts carrying a far-away deadline, cancelled directly or through their parent) with injected OpenFile/Read/Seek/iterator failures and PRNG delays run against started, never-started and stopped engines; a concurrent Close is held behind the consumer's final Next and the state read then must be the state after Close returned; the terminal state (sticky false, nil Row, Err classification by happens-before, every reached failure reported, Close nil/idempotent/not changing a decided state) is checked per script; blocked scripts are decided by a state-based stuck detector.",
+         "Hundreds of generated Next/cancel/Close/concurrent-Close scripts (incl. cancel, then a pause long enough for the pipeline to wind down, then Next; MetaStore iterations failing at their start, first yield or midway in queries left to run to the end; a configured Logger whose handler is slow; handles whose reads fail once the query context is done) (plain cancellable contexts and contexts carrying a far-away deadline, cancelled directly or through their parent) with injected OpenFile/Read/Seek/iterator failures and PRNG delays run against started, never-started and stopped engines; a concurrent Close is held behind the consumer's final Next and the state read then must be the state after Close returned; the terminal state (sticky false, nil Row, Err classification by happens-before, every reached failure reported, Close nil/idempotent/not changing a decided state) is checked per script; blocked scripts are decided by a state-based stuck detector.",
          "Err after the consumer's own Close accepts nil/joined errors/context error (documented). Race detector reports with a bloomsearch frame are violations.", "6/C20"),
  "C21": ("exploration", "handle life-cycle / iterator / goroutine / slot monitors at the instant the cursor finishes, under the race detector",
          "Same scripts as C20: when the final Next returned false or Close returned, every DataStore handle the query opened is closed exactly once and its Close call (which the store may make slow) has returned, none was used after close or by two operations at once (atomic in-use flag plus plain shadow field for the race detector), the MetaStore iterator has returned; goroutines started by Query and the engine's slot gauge are polled to zero.",
@@ -54,26 +54,26 @@ CLAIMED = {
          "Every single flush-path store-call position of each explored history (CreateFile, every Write, Close pre- and post-effect, Update) is failed in turn, then every cleanup call (Abort/TombstoneFile/Close) the failure provoked, plus PRNG pairs; after every Flush and at the end: nil answer => rows visible exactly once on this and a fresh engine, error answer => never visible, unmarshalable batch => error and no trace, no batch unanswered or answered twice.",
          "Exhaustive over single positions of the explored histories; histories themselves are sampled. MetaStore.Update atomic (MemoryMetaStore behind the wrapper).", "6/C06"),
  "C07": ("exploration", "gated-store workload + late-receiver histories + monotone len() monitor over never-consumed buffered done channels + visibility query at every Flush return, with the race detector",
-         "A flush-path store call is held at a gate while clients keep sending batches and Flush calls; a polling monitor over the buffered done channels (monotone state) and a check at every Flush return require that whenever a batch is answered nil or Flush returns nil, every non-empty batch accepted earlier is already answered, and those answered nil are visible to a query. Late-receiver histories: an earlier batch's unbuffered done channel gets its receiver only after a later subject was seen answered (or 250 ms) — an explicit Flush, a limit- or time-triggered flush of a later batch, or a Flush arriving after the earlier batch's own flush committed but before its answer was delivered; a later subject answered before that is a violation. Some gated histories hold a time-triggered flush at the gate with nothing queued behind it; in every third history each batch lives in one of 2-4 partitions and only the partition row limit triggers flushes.",
+         "A flush-path store call is held at a gate while clients keep sending batches and Flush calls; a polling monitor over the buffered done channels (monotone state) and a check at every Flush return require that whenever a batch is answered nil or Flush returns nil, every non-empty batch accepted earlier is already answered, and those answered nil are visible to a query. Late-receiver histories: an earlier batch's unbuffered done channel gets its receiver only after a later subject was seen answered (or 250 ms) — an explicit Flush, a limit- or time-triggered flush of a later batch, or a Flush arriving after the earlier batch's own flush committed but before its answer was delivered; a later subject answered before that is a violation. Some gated histories hold a time-triggered flush at the gate with nothing queued behind it; in every third history each batch lives in one of 2-4 partitions and only the partition row limit triggers flushes; in another third one flush fails after its file was created and its cleanup is slow while later flushes succeed (the error answers must still come first).",
          "Order = real-time precedence on the harness's logical clock; empty batches are not subjects.", "6/C07"),
  "C08": ("exploration", "wedged-store/unreachable-backend/abandoned-channel workloads x context kinds (incl. a foreign context with late AfterFunc) with store-call log and stop.flagged hook, under the race detector",
          "Stop is called while a flush is held at a ctx-ignoring gate, the backend is unreachable behind a store that honours contexts (and stays so after Stop returned: the deadline abort alone must unwind the workers and answer every waiter that can receive), and/or done channels are abandoned (batches of every kind, incl. those the ingest actor answers itself); Flush calls issued while the worker is held must return, and with an error once the deadline aborted the flushes ahead of them: callers starting after the stop.flagged hook get ErrEngineStopped; Stop returns on its own (the gate stays shut until then or deadline + 8 s); after a deadline error no CreateFile starts (store log ticks); after unwedging, workers exit and every waiter with capacity has exactly one value.",
          "A flush already inside a store call when the deadline fires may finish. The only wall-clock threshold is 8 s beyond deadlines of 60-250 ms.", "6/C08"),
- "C09": ("exploration", "accepted-minus-answered gauge under a stalled (gated) store, with partitioned / fresh-partition-per-batch / empty batches, with the race detector",
+ "C09": ("exploration", "accepted-minus-answered gauge (answers counted where they sit in the done channels) under a stalled (gated) store, with partitioned / fresh-partition-per-batch / empty batches and byte limits spread over orders of magnitude, with the race detector",
          "With the store shut at a gate and producers offering 20x the bound, the number of accepted-but-unanswered batches never exceeds IngestBufferSize + 4*ceil(trigger/batchRows) + 2 and saturated IngestRows calls end with their context error.",
          "Only the row-count trigger active so a flush's worth of batches is well defined.", "6/C09"),
  "C10": ("exploration", "harness-side buffer model (rows, bytes, per-partition) predicting limit-triggered flushes; time-trigger cases with thresholds far from both behaviours",
          "A sequential client ingests without Flush/Stop; whenever the harness's model of the buffers says a configured limit was reached, everything buffered must be answered with no further input; with only MaxBufferedTime active a batch must be answered on its own. Includes batches accepted before Start.",
          "Verdict threshold = expected instant + 10 s (correct ~0.1 s, broken = never).", "6/C10"),
  "C13": ("fault_enumeration", "store-call fault enumeration over Merge from identical deep copies; classification by whether MetaStore.Update applied",
-         "Every single store-call position of each explored population's Merge (iterator start and yields, CreateFile, OpenFile, Seek, Read, Write, Close pre/post, Update, TombstoneFile pre/post) is failed in turn, then the cleanup calls each failure provoked, PRNG pairs, a context cancelled mid-merge and a concurrent second Merge. Committed runs must return nil or stats+ErrPostCommitCleanup with outputs referenced, sources unreferenced and tombstoned only after the commit; uncommitted runs must return an error, leave the MetaStore identical and never tombstone a source; visible rows never change.",
+         "Every single store-call position of each explored population's Merge (iterator start and yields, CreateFile, OpenFile, Seek, Read, Write, Close pre/post, Update, TombstoneFile pre/post) is failed in turn, then the cleanup calls each failure provoked, PRNG pairs, a context cancelled mid-merge and a concurrent second Merge (the first held at its listing, source open, output create, write or commit). Committed runs must return nil or stats+ErrPostCommitCleanup with outputs referenced, sources unreferenced and tombstoned only after the commit; uncommitted runs must return an error, leave the MetaStore identical and never tombstone a source; visible rows never change.",
          "Exhaustive over single positions of explored populations. MetaStore.Update atomic. Update is also failed with an error wrapping context.Canceled while the Merge context is cancelled. Every fourth population uses FileSystemDataStore as both stores (fresh directory copy per run), where an uncommitted published output is visible content; runs whose cleanup calls the harness made fail are exempt from the content comparison there.", "6/C13"),
  "C14": ("exploration", "ack/start-tick snapshot monitor over concurrent writers, merger and query loops (both shipped MetaStores, -race) + porcupine linearizability of MemoryMetaStore histories",
          "Every finished query is checked against the set of rows acknowledged before its start tick (Err == nil => each exactly once; never a duplicate or a never-ingested row); MemDataStore really deletes so vanished files must surface as errors. Short concurrent Update/snapshot histories of MemoryMetaStore are checked linearizable with porcupine. The FileSystemDataStore-as-MetaStore variant reports the known merge-window finding by signature and anything else as a violation.",
          "FS-variant attribution: store kind fs ∧ anomaly ∈ {duplicate, omission} ∧ every affected row belongs to sources of a merge whose call overlaps the query's lifetime.", "6/C14"),
  "C16": ("exploration", "sequential specification model vs. directory listing/OpenFile/scan after every operation, forced name collisions via the tagged setter; concurrent variant under the race detector",
          "Generated CreateFile/Write/Close/Abort/TombstoneFile/OpenFile/scan sequences over up to six interleaved writers with the name draw forced through 1-4 names: after every operation the directory must equal a 40-line model's artifacts exactly, published pointers must return exactly their bytes, the scan must list exactly the published valid bloom files, CreateFile must never return a live pointer. A goroutine-per-writer variant checks the final state.",
-         "A writer whose pointer was tombstoned mid-write is retired; tombstones only in the sequential variant (a pointer is a name; see DESIGN.md). Store roots include names that contain the store's own extensions (.dat, .tmp) and foreign entries; redundant second Close, Abort after Close and stale Close after Abort are part of the sequences.", "6/C16"),
+         "A writer whose pointer was tombstoned mid-write is retired; tombstones only in the sequential variant (a pointer is a name; see DESIGN.md). Store roots include names that contain the store's own extensions (.dat, .tmp) and foreign entries; redundant second Close, Abort after Close, stale Close after Abort and aborts that land between a scan's directory listing and its reading of the entries are part of the sequences.", "6/C16"),
  "C27": ("exploration", "fd 1/2 capture of an engine-only child process (plus strace write-syscall cross-check in the thorough tier)",
          "A child process built without -race runs ingest, flush (limit/time/explicit), query, merge and Stop histories with store failures at every call kind, targeted double faults (a primary failure plus the failure of the cleanup it provokes, on flush and on merges that already published output; a merge cancelled midway, failing Close of read handles), the public read helpers over damaged files, the numeric conversion functions on odd values and query JSON that does not parse, corrupt/truncated files, external-writer files with absent filters, cancelled queries, unmarshalable rows and both Stop-deadline abandonment paths, with no Logger configured; both descriptors must stay empty and the child must exit 0.",
          "The child's own summary goes to a file, never to fd 1/2.", "6/C27"),
